@@ -293,7 +293,7 @@ CHECKS['C13'] = dict(
     jobs=_sjobs('asan', _C13_QUICK) + _sjobs('asan', _C13_THOROUGH, tiers=['thorough'], prefix='T:'),
     states_key='states', transitions_key='transitions', traces_key='executions',
     rule='states = distinct happens-before states expanded at choice points; transitions = scheduling/choice points executed; signature = (delivery order observed, #preemptions, #spurious wake-ups)',
-    bounds={'quick': 'P in {1,2}, J in {0..3}; preemption bound 3 for P=1, 2 for P=2/J=3 and two clients of one caller, 1 for two caller threads; no spurious wake-ups; five configurations also with scheduling points after unlock (per-job arguments: scenario P J bound)',
+    bounds={'quick': 'P in {1,2}, J in {0..3}; preemption bound 3 for P=1, 2 for P=2/J=3 and two clients of one caller, 1 for two caller threads (plus two callers with 3 and 1 jobs on a pool of two at bound 0, where both wait for a worker at once); sorters with one and with two entries per chunk; no spurious wake-ups; five configurations also with scheduling points after unlock (per-job arguments: scenario P J bound)',
             'thorough': 'adds J=4, P=3, bound 3 on P=2/J=3, spurious wake-ups <=1, scheduling points at unlock on small configurations'},
     nonzero=['states', 'executions', 'executions_with_preemption', 'cond_waits', 'blocking_joins'],
     assumptions=['sequentially consistent interleavings at synchronisation operations (sufficient for data-race-free code; races are C14)', 'the scheduler\'s model of mutex/condition semantics (cross-checked by the free-running pass of C14)', 'happens-before caching is sound for data-race-free programs'],
@@ -323,7 +323,7 @@ _WF = H('h_wfault.c', 'asan', tu_flags={'mtbl/writer.c': ['-Dwrite=vf_write', '-
 CHECKS['C20'] = dict(
     level=FE, engine='envshim',
     technique='exhaustive enumeration of fault scripts for write(2): every outcome (full, EINTR, EINTR x3, short write of every length, EIO, ENOSPC, return 0) at every write call, all scripts with at most D deviations, on the real writer through a compile-time seam',
-    text='writer.c is compiled with write renamed to a harness function that answers every call from a script and records the byte stream. All scripts with at most D deviations (D=3 quick, 4 thorough) from "every write completes" are run on seven files (empty table, 1-3 data blocks, foreign prefix, none/lz4). Without a hard error the final bytes must equal the unfragmented output and every call must offer exactly the not-yet-accepted continuation of the file (no byte repeated or skipped). With a hard error the writer must stop on its assertion; mtbl_writer_destroy returning normally is a violation. The same scripts with a pool (the result-handler thread does the writing) run in forked children.',
+    text='writer.c is compiled with write (and writev, pwrite, should the writer use them) renamed to harness functions that answer every call from a script and record the byte stream. All scripts with at most D deviations (D=3 quick, 4 thorough) from "every write completes" are run on seven files (empty table, 1-3 data blocks, foreign prefix, none/lz4). Without a hard error the final bytes must equal the unfragmented output and every call must offer exactly the not-yet-accepted continuation of the file (no byte repeated or skipped). With a hard error the writer must stop on its assertion; mtbl_writer_destroy returning normally is a violation. The same scripts with a pool (the result-handler thread does the writing) run in forked children.',
     jobs=[
         dict(name='faults', spec=_WF, args=lambda tier: ['4' if tier == 'thorough' else '3']),
         dict(name='faults-pooled', spec=_WF, args=lambda tier: ['2' if tier == 'thorough' else '1', 'pool']),
@@ -390,7 +390,7 @@ _RES = H('h_res.c', 'asan', tu_flags={'mtbl/reader.c': ['-Dmmap=vf_mmap', '-Dmun
 CHECKS['C18'] = dict(
     level=MC, engine='bfs',
     technique='exhaustive enumeration of API scenario scripts with every abandon point and both destruction orders; each history is executed three times and process-wide ledgers (sanitizer allocator bytes in use, open descriptors, reader mappings through an mmap seam, temp-dir listing) must not grow between repetitions; pooled-sorter-destroyed-in-flight under the schedule explorer with LeakSanitizer',
-    text='Six scenario families (writer with refused adds; reader on table / non-table / short / empty file with all iterator kinds advanced 0, 1, all; merger with a merge callback failing per key and mtbl_source_write; sorter with 1-3 chunks, without pool / with a 2-thread pool / with a zero-thread pool object, merge callback failing inside a chunk or in the final merge, iterator or mtbl_sorter_write path; fileset with dup, open iterators, deferred reload_now, partition; pooled writers sharing a pool) are cut at EVERY point of their script, all live objects are destroyed (two orders), and the whole history is repeated: a repetition-to-repetition growth of heap bytes, descriptors, mappings, threads or temp files is a leak, independent of reachability. Scenarios that the library stops by assertion are not histories that end with every object destroyed and are only counted. Destroying a pooled sorter while chunk jobs are in flight is explored under every schedule with <=2 preemptions.',
+    text='Seven scenario families (reader opened and destroyed on tables at every file-size residue modulo the page size, mappings accounted in pages; writer with refused adds; reader on table / non-table / short / empty file with all iterator kinds advanced 0, 1, all; merger with a merge callback failing per key and mtbl_source_write; sorter with 1-3 chunks, without pool / with a 2-thread pool / with a zero-thread pool object, merge callback failing inside a chunk or in the final merge, iterator or mtbl_sorter_write path; fileset with dup, open iterators, deferred reload_now, partition; pooled writers sharing a pool) are cut at EVERY point of their script, all live objects are destroyed (two orders), and the whole history is repeated: a repetition-to-repetition growth of heap bytes, descriptors, mappings, threads or temp files is a leak, independent of reachability. Scenarios that the library stops by assertion are not histories that end with every object destroyed and are only counted. Destroying a pooled sorter while chunk jobs are in flight is explored under every schedule with <=2 preemptions.',
     jobs=[dict(name='scenarios', spec=_RES, args=[])] + [dict(j, env={'ASAN_OPTIONS': 'detect_leaks=1:abort_on_error=0:exitcode=77:handle_segv=0:handle_sigbus=0'}) for j in _sjobs('asan', ['sorter-destroy 2 2 2', 'sorter-destroy 1 3 2', 'sorter-destroy 2 3 1'], prefix='inflight:')],
     states_key='states', transitions_key='transitions', traces_key='cases', evals_key='cases',
     rule='one case = (scenario family, variant, abandon point, destruction order); signature = (family, variant, order)',
